@@ -44,7 +44,7 @@ def _hwm(pid):
 
 def worker_env(extra=None):
     env = dict(os.environ)
-    env["PYTHONPATH"] = ":".join([VERIF, os.path.join(VERIF, ".deps"), "/repo"])
+    env["PYTHONPATH"] = ":".join([VERIF, os.path.join(VERIF, ".deps"), os.environ.get("GASOL_VERIF_REPO", "/repo")])
     env.setdefault("PYTHONHASHSEED", "0")
     env["PYTHONWARNINGS"] = "ignore"
     env["PYTHONDONTWRITEBYTECODE"] = "1"
